@@ -4,6 +4,7 @@ import (
 	"bytes"
 	"encoding/json"
 	"fmt"
+	"regexp"
 	"sort"
 	"strings"
 	"testing"
@@ -19,34 +20,53 @@ import (
 // ---- C09: jobs, steps and expressions are checked independently (no state leaks) ------------------------
 
 type c09Case struct {
-	A, B   string `json:"-"`
-	YA     string `json:"a"`
-	YB     string `json:"b"`
-	What   string `json:"what"`    // the variation
-	Unit   string `json:"unit"`    // "job" or "step"
-	StartA int    `json:"start_a"` // first line of the observed unit in A
-	EndA   int    `json:"end_a"`   // last line (inclusive)
-	StartB int    `json:"start_b"`
-	EndB   int    `json:"end_b"`
-	Config string `json:"config,omitempty"` // content of .github/actionlint.yaml ("" = no repository)
+	A, B   string   `json:"-"`
+	YA     string   `json:"a"`
+	YB     string   `json:"b"`
+	What   string   `json:"what"`    // the variation
+	Unit   string   `json:"unit"`    // "job" or "step"
+	StartA int      `json:"start_a"` // first line of the observed unit in A
+	EndA   int      `json:"end_a"`   // last line (inclusive)
+	StartB int      `json:"start_b"`
+	EndB   int      `json:"end_b"`
+	Config string   `json:"config,omitempty"` // content of .github/actionlint.yaml ("" = no repository)
+	Ignore []string `json:"ignore,omitempty"` // -ignore patterns given to the linter
 }
 
 // c09Lint lints a workflow, inside a temporary repository when a configuration is given.
-func c09Lint(src, config string) ([]Diag, error, any, string) {
-	if config == "" {
+func c09Lint(src, config string, ignore []string) ([]Diag, error, any, string) {
+	if config == "" && len(ignore) == 0 {
 		return lintSafe([]byte(src))
+	}
+	var ds []Diag
+	var err error
+	var pan any
+	if config == "" {
+		func() {
+			defer func() { pan = recover() }()
+			l, e := al.NewLinter(&bytes.Buffer{}, &al.LinterOptions{IgnorePatterns: ignore})
+			if e != nil {
+				err = e
+				return
+			}
+			var errs []*al.Error
+			errs, err = l.Lint("<stdin>", []byte(src), nil)
+			ds = toDiags(errs)
+		}()
+		return ds, err, pan, ""
 	}
 	w := world.New()
 	defer w.Cleanup()
 	w.Repo("")
 	w.Write(".github/actionlint.yaml", config)
 	p := w.Write(".github/workflows/w.yml", src)
-	var ds []Diag
-	var err error
-	var pan any
 	func() {
 		defer func() { pan = recover() }()
-		l, _ := al.NewLinter(&bytes.Buffer{}, &al.LinterOptions{WorkingDir: w.Root})
+		l, e := al.NewLinter(&bytes.Buffer{}, &al.LinterOptions{WorkingDir: w.Root, IgnorePatterns: ignore})
+		if e != nil {
+			err = e
+			return
+		}
 		var errs []*al.Error
 		errs, err = l.LintFile(p, nil)
 		ds = toDiags(errs)
@@ -66,11 +86,11 @@ func unitDiags(ds []Diag, start, end int) []string {
 }
 
 func checkIndependence(c *c09Case) (key, msg string, n int) {
-	da, err, pan, st := c09Lint(c.YA, c.Config)
+	da, err, pan, st := c09Lint(c.YA, c.Config, c.Ignore)
 	if pan != nil || err != nil {
 		return "C09/panic-or-fatal", fmt.Sprintf("%v %v %s\n%s", pan, err, st, c.YA), 0
 	}
-	db, err, pan, st := c09Lint(c.YB, c.Config)
+	db, err, pan, st := c09Lint(c.YB, c.Config, c.Ignore)
 	if pan != nil || err != nil {
 		return "C09/panic-or-fatal", fmt.Sprintf("%v %v %s\n%s", pan, err, st, c.YB), 0
 	}
@@ -127,7 +147,7 @@ var c09Exprs = []string{
 
 func TestC09(t *testing.T) {
 	hx.Main(t, "C09", func(r *hx.Run) {
-		r.Rule = "workflow composed of independently generated jobs (matrix with scalar / array-valued / object-valued rows and include, steps with ids, defaults/shell, runs-on, container, services) with 2-8 values replaced by expressions from a pool biased towards `.*` filters and property/index access on the same paths, plus errors of many rules. Variations of the history before the observed unit: (i) delete jobs the observed job does not (transitively) need, (ii) permute the job order, (iii) delete id-less steps of the observed job / before the observed step, (iv) insert an extra step before the observed step whose only content is another expression, (v) repetition. Oracle: the multiset of (line relative to the unit start, column, kind, message with embedded positions normalised) attributed to the observed job / step is identical. Non-trivial = the removed/added part has >= 1 diagnostic or contains an expression, and the observed unit has >= 1 diagnostic; distinct = pair of texts."
+		r.Rule = "workflow composed of independently generated jobs (matrix with scalar / array-valued / object-valued rows and include, steps with ids, defaults/shell, runs-on, container, services) with 2-8 values replaced by expressions from a pool biased towards `.*` filters and property/index access on the same paths, plus errors of many rules. Variations of the history before the observed unit: (i) delete jobs the observed job does not (transitively) need, (ii) permute the job order, (iii) delete id-less steps of the observed job / before the observed step, (iv) insert an extra step before the observed step whose only content is another expression, (v) repetition. One third of the compositions are linted with 1-2 -ignore patterns taken from their own messages. Oracle: the multiset of (line relative to the unit start, column, kind, message with embedded positions normalised) attributed to the observed job / step is identical. Non-trivial = the removed/added part has >= 1 diagnostic or contains an expression, and the observed unit has >= 1 diagnostic; distinct = pair of texts."
 		r.Assumptions = []string{"only unrelated parts are removed: the transitive needs closure of the observed job and steps with ids stay", "job ids are unique; needs only refer to earlier jobs"}
 		r.Check(t, "compositions", hx.N(1500, 40000), func(rt *rapid.T) {
 			g := &wf.G{T: rt, Rare: rapid.Bool().Draw(rt, "rare")}
@@ -244,7 +264,27 @@ func TestC09(t *testing.T) {
 				return nil
 			}
 			sa, ea := jobKey().Line, lastLine(obs)
+			// -ignore patterns: the filter works per diagnostic, so the relation is the same with it.
+			// Patterns are the fixed text in front of the first quoted part of messages of this workflow.
+			var ignore []string
+			if rapid.IntRange(0, 2).Draw(rt, "useignore") == 0 {
+				if d0, _, _, _ := c09Lint(ya, config, nil); len(d0) > 0 {
+					for i := rapid.IntRange(1, 2).Draw(rt, "nignore"); i > 0; i-- {
+						m := d0[rapid.IntRange(0, len(d0)-1).Draw(rt, "ignmsg")].Msg
+						if j := strings.IndexAny(m, "\"'"); j > 3 {
+							m = m[:j]
+						} else if len(m) > 24 {
+							m = m[:24]
+						}
+						ignore = append(ignore, "^"+regexp.QuoteMeta(m))
+					}
+				}
+			}
 			run := func(c *c09Case, interesting bool) bool {
+				c.Ignore = ignore
+				if len(ignore) > 0 {
+					r.Class("with-ignore-patterns")
+				}
 				k, m, n := checkIndependence(c)
 				r.Eval()
 				if interesting && n > 0 && c.YA != c.YB {
